@@ -99,9 +99,12 @@ def main():
         for r in results:
             for p in r['known_hit']:
                 m = re.match(r'known-finding\[([^\]]+)\]', p['desc']); key = m.group(1) if m else '?'
-                if (pid, key) in listed or any(k['key'] == key for k in kf.get('findings', [])):
-                    k = listed.get((pid, key)) or [k for k in kf['findings'] if k['key'] == key][0]
-                    known_lines.append('KNOWN-FINDING: property=%s %s' % (pid, k['what']))
+                if (pid, key) in listed:
+                    known_lines.append('KNOWN-FINDING: property=%s %s' % (pid, listed[(pid, key)]['what']))
+                elif any(k['key'] == key for k in kf.get('findings', [])) and pid is not None:
+                    pass                        # finding recorded for another property that shares this job: not this property's obligation
+                elif pid is None and any(k['key'] == key for k in kf.get('findings', [])):
+                    known_lines.append('KNOWN-FINDING: property=%s %s' % ([k for k in kf['findings'] if k['key'] == key][0]['property'], [k for k in kf['findings'] if k['key'] == key][0]['what']))
                 else:
                     r['failed'].append(p)      # an unlisted finding is an ordinary violation
                     r['status'] = 'failed'
